@@ -35,8 +35,12 @@ mod vault;
 mod nft;
 #[cfg(kani)]
 mod nft_enum;
+// consecutive NFT family: only in its own profile (feature consecstub: #[kani::stub] needs `-Z stubbing`)
 #[cfg(kani)]
 mod nft_consec;
+#[cfg(all(kani, feature = "consecstub"))]
+#[path = "nft_consec_shim.rs"]
+pub mod non_fungible;
 #[cfg(kani)]
 mod merkle;
 #[cfg(kani)]
